@@ -7,6 +7,7 @@
   original tree up to empty statements, which the analysis skips.
 -/
 import Mwp.Lemmas.SyntaxThmsCov2
+import Mwp.Lemmas.SyntaxThmsInsert
 namespace Mwp.Props.C07
 open Mwp Mwp.Syntax
 
@@ -19,6 +20,68 @@ theorem full_after_removal (n m : Node) (k : Nat) (h : coverage n = .ok (k, m)) 
     coverage m = .ok (0, m) :=
   coverage_mod_full n m k h
 
+/-- EXACTNESS of the removal pass.  `C` is a one-hole statement context (the hole is the item list
+    of a block, at any depth below function body / loop bodies / branches / labels / blocks),
+    `s` a statement the syntax check rejects (`covN s` charges it to its container).  Provided
+    every statement on the path to the hole is itself supported (`Ctx.Supported`) and `s` does not
+    change the `loop_compat` verdict of an enclosing `for` (`Ctx.Compat`; implied by
+    `Ctx.Fresh`: `s` mentions no variable of the condition / initialiser sources of an enclosing
+    `for`, see `Ctx.compat_of_fresh`), the removal pass on the function with `s` inserted yields
+    the same tree as on the function without it, with exactly one more omitted command. -/
+theorem inserted_unsupported_statement_is_removed_exactly (C : Ctx) (s : Node) (cs : Cov)
+    (hs : covN s = .ok cs) (hu : cs.up > 0) (l1 l2 : List Node)
+    (hsup : C.Supported (l1 ++ l2)) (hcompat : C.Compat (l1 ++ s :: l2) (l1 ++ l2))
+    (k : Nat) (m : Node) :
+    coverage (C.fill (l1 ++ s :: l2)) = .ok (k + 1, m) ↔
+      coverage (C.fill (l1 ++ l2)) = .ok (k, m) :=
+  coverage_insert C s cs hs hu l1 l2 hsup hcompat k m
+
+/-- the same at the level of one block: same remaining items, one more omitted command -/
+theorem inserted_unsupported_item_is_removed_exactly (s : Node) (cs : Cov)
+    (hs : covN s = .ok cs) (hu : cs.up > 0) (l1 l2 l' : List Node) (k : Nat) :
+    covList (l1 ++ s :: l2) = .ok (k + 1, l') ↔ covList (l1 ++ l2) = .ok (k, l') :=
+  covList_insert s cs hs hu l1 l2 l' k
+
+/-- A fully supported function `f = C.fill (l1 ++ l2)` with an unsupported statement inserted:
+    non-strict analysis sees exactly `f` (the syntax gate hands `f` to `Analysis.func`), so its
+    result is the result for `f`; strict analysis refuses the function. -/
+theorem analysis_unaffected_by_inserted_unsupported_statement (C : Ctx) (s : Node) (cs : Cov)
+    (hs : covN s = .ok cs) (hu : cs.up > 0) (l1 l2 : List Node) (m : Node)
+    (hfull : coverage (C.fill (l1 ++ l2)) = .ok (0, m))
+    (hcompat : C.Compat (l1 ++ s :: l2) (l1 ++ l2)) (fin : Bool) :
+    coverage (C.fill (l1 ++ s :: l2)) = .ok (1, C.fill (l1 ++ l2)) ∧
+    Run.syntaxCheck (C.fill (l1 ++ s :: l2)) false = .ok (some (C.fill (l1 ++ l2))) ∧
+    Run.runOne (C.fill (l1 ++ s :: l2)) fin false = Run.runOne (C.fill (l1 ++ l2)) fin false ∧
+    Run.runOne (C.fill (l1 ++ s :: l2)) fin true = .ok none :=
+  ⟨coverage_insert_full C s cs hs hu l1 l2 m hfull hcompat,
+   (syntaxCheck_insert C s cs hs hu l1 l2 m hfull hcompat).1,
+   runOne_insert C s cs hs hu l1 l2 m hfull hcompat fin,
+   runOne_insert_strict C s cs hs hu l1 l2 m hfull hcompat fin⟩
+
+/-! example: `while (x < 10) { y = y + 1; }` with `g(y);` and `a[1] = x;` inserted in the body -/
+
+/-- `void f() { while (x < 10) □ }` -/
+def exCtx : Ctx :=
+  .funcDef (.decl (some "f") (.funcDecl none) none)
+    (.block [] (.while_ (.binop "<" (.id "x") (.const "int" "10")) .hole) [])
+/-- `y = y + 1;` -/
+def exKeep : Node := .assign "=" (.id "y") (.binop "+" (.id "y") (.const "int" "1"))
+/-- `g(y);` -/
+def exCall : Node := .funcCall (.id "g") (some (.exprList [.id "y"]))
+/-- `a[1] = x;` -/
+def exArr : Node := .assign "=" (.arrayRef (.id "a") (.const "int" "1")) (.id "x")
+
+example : coverage (exCtx.fill ([] ++ exCall :: ([exKeep] ++ exArr :: []))) =
+    .ok (2, exCtx.fill ([] ++ ([exKeep] ++ []))) := by
+  apply coverage_insert_two exCtx exCall exArr ⟨1, 0, exCall⟩ ⟨1, 0, exArr⟩ _ (by decide) _
+    (by decide) [] [exKeep] [] (exCtx.fill [exKeep])
+  · simp [exCtx, exKeep, Ctx.fill, coverage, covN, covList, covBody, hasEffect, allowRhs,
+      allowOperand, Node.isId, Node.isBinop, Node.isConst, Node.isUnop, Node.rmCast, Gen.binOps,
+      bind, Except.bind, pure, Except.pure]
+  · simp only [exCtx, Ctx.Compat]
+  · simp only [exCtx, Ctx.Compat]
+  · simp [exCall, covN, isAssertAssume, pure, Except.pure]
+  · simp [exArr, covN, Node.isId, pure, Except.pure]
 
 /-- The handler tables of the live `Coverage` class (REGENERATED on every run) are the ones the
     model `covN` was written against: a handler added to or lost from the class breaks this. -/
